@@ -6,9 +6,11 @@ ENTRY = dict(
         prop_file="Properties/C08.v",
         corr_files=["Corr/C08Corr.v"],
         theorems=["c08_action_factor", "c08_factor_ge_1", "c08_cost_monotone", "c08_dijkstra", "c08_frontier_invariant",
-                  "c08_flag_sound_guarded", "c08_flag_sound", "c08_pruning_sound_bounded", "c08_flag_sound_bounded",
+                  "c08_flag_sound_guarded", "c08_pruning_sound", "c08_pruning_sound_request", "c08_flag_sound_unbounded",
+                  "c08_flag_sound", "c08_pruning_sound_bounded", "c08_flag_sound_bounded",
                   "c08_unrestricted", "c08_seed_independent", "c08_result_attained", "c08_unrestricted_spec",
-                  "c08_seed_independent_spec", "c08_unrestricted_bounded", "c08_seed_independent_bounded", "c08_enough_fuel",
+                  "c08_seed_independent_spec", "c08_unrestricted_unbounded", "c08_seed_independent_unbounded",
+                  "c08_unrestricted_bounded", "c08_seed_independent_bounded", "c08_enough_fuel",
                   "c08_facts", "c08_fact_requeue"],
         allowed_axioms=[],
         facts=["cf_left_wire_mult", "cf_right_wire_mult", "cf_both_wires_mult", "cf_gate_cut_uses_gate_gamma",
@@ -21,11 +23,19 @@ ENTRY = dict(
                    "minimum_reached = true implies that the returned overhead is <= that of every goal of the guarded search space; an "
                    "unrestricted search (no backjump limit, some goal within max_gamma) always sets the flag and its overhead does not depend on "
                    "the random tape; enough fuel excludes NoFuel. The step from the guarded search space to the declarative specification "
-                   "(all 5^g assignments on the wire-segment graph) is a named hypothesis (pruning_sound_for) of c08_flag_sound and is PROVED ONLY "
-                   "ON A FINITE DOMAIN by complete enumeration inside Coq (c08_pruning_sound_bounded: every circuit up to relabelling with <=3 "
-                   "two-qubit gates of gamma 3/7 on <=4 qubits incl. idle ones, W in 1..4, every cut-kind combination, symbolic instruction ids); "
-                   "the same for <=4 gates (14 510 circuits) is proved in Proofs/BestFirstSpec4.v but kept outside this property's cone because "
-                   "coqchk needs over an hour for it; the unbounded exchange argument is open. "
+                   "(all 5^g assignments on the wire-segment graph) is now PROVED UNBOUNDED (c08_pruning_sound: any number of qubits and "
+                   "two-qubit gates, any width limit, any cut-kind combination, any max_gamma, gammas >= 1): every assignment of permitted "
+                   "kinds that meets the width limit is matched in cost by a goal that the guarded actions (width checks, r1 == r2 guards, "
+                   "can_expand_subcircuit, the W < 2 guard, the no-merge clauses, can_add_wires under the budget min(#gate inputs, "
+                   "max_wire_cuts_gamma(greedy gamma | max_gamma))) reach from the start state of the search. Exchange argument: the "
+                   "assignment is normalised against the final components of its own wire segments (useless cuts become leave, a "
+                   "both-wires cut with one useless side becomes a single wire cut), the search follows the normalised assignment "
+                   "under a simulation invariant, 4^(wire cuts) <= cost bounds the wire cuts by max_wire_cuts_gamma, and when the "
+                   "assignment costs more than the greedy incumbent the greedy path itself is shown to exist under the smaller budget. "
+                   "Consequently c08_flag_sound_unbounded / c08_unrestricted_unbounded / c08_seed_independent_unbounded hold for every "
+                   "request whose multi-qubit gates act on two distinct qubits (circ_wf) without any hypothesis on the search space. "
+                   "The finite-domain enumeration (c08_pruning_sound_bounded: <=3 gates, <=4 qubits, gammas 3/7; <=4 gates in "
+                   "Proofs/BestFirstSpec4.v outside this property's cone) is kept as an independent check of the same statement. "
                    "Closed under the global context. The model's (overhead, minimum_reached) are compared exactly with find_cuts on >1300 requests "
                    "x 2-3 seeds per quick run (bounded-exhaustive small circuits + random circuits + the F3 witness class; thorough: all 162 300 "
                    "requests of the <=4-gate space + 5000 random ones), and the independent brute-force oracle runs on every generated case.",
@@ -36,9 +46,11 @@ ENTRY = dict(
             "the model implements the REPAIRED behaviour of BestFirstSearch.optimization_pass (a popped state over a bound is re-queued unless "
             "the flag is set; candidate fix F3); fact bf_bound_branch_requeues ties this to the source and is false on the unrepaired tree",
             "gate gammas >= 1 (hypothesis gammas_ok_in; kappa of every QPD basis, C15; monitored on every generated case)",
-            "c08_pruning_sound (guards, no-merge clauses and the wire-cut budget ceil(log2(gamma+1)-1) lose no optimum) is proved by enumeration "
-            "for <=3 gates / <=4 qubits / gammas {3,7} only (<=4 gates outside the cone); beyond that it is a hypothesis of c08_flag_sound, probed "
-            "on every generated case by the brute-force oracle of harness/c08.py (a rejected case is marked k_oracle=false and reported)",
+            "c08_pruning_sound is proved for gate lists of well-formed two-qubit gates (two distinct qubits below the number of qubits: "
+            "hypothesis circ_wf of the request-level theorems; Qiskit rejects duplicate qubit arguments and the cut finder refuses gates on "
+            "more than two qubits) against the wire-segment specification of Proofs/BestFirstSpec.v (assignment_cost), which is a "
+            "hand-written declarative definition; the brute-force oracle of harness/c08.py still probes the same statement on every "
+            "generated case (a rejected case is marked k_oracle=false and reported)",
             "binary64: gamma_UB ** 2 is exact below 2^26 (cases with a larger greedy gamma are skipped by the generator)",
             "max_wire_cuts_gamma is modelled exactly over Q (np.log2/np.ceil corner cases at powers of two are not modelled)",
         ],
